@@ -163,6 +163,35 @@ def affine_wrappers(rep, tier):
         r3 = sp.privtopub(b"key")
     require(rep, r3 == "PUB" and ("mul", (sp.G, 777)) in log and ("b2i", (b"key",)) in log, "privtopub(d) = multiply(G, bytes_to_int(d))", None, rp)
 
+    # privtopub on key strings of EVERY length 0..80: the scalar handed to multiply is the big-endian integer of the whole string
+    from symx import sbytes
+    from symx.sbytes import SymBytes, SEQ
+    OS2IP = sbytes._uf("OS2IP", SEQ, z3.IntSort())
+
+    def run_priv(ctx):
+        d = SymBytes.var("d", 0, 80)
+        got = []
+        with world.patched(sp, multiply=lambda pt, n: got.append((pt, n)) or "PUB", bytes_to_int=lambda b: SymZ(OS2IP(SymBytes.lift(b).t))):
+            out = sp.privtopub(d)
+        return d, got, out
+
+    def on_priv(pth):
+        rep.paths += 1
+        if pth.kind != "ret":
+            rep.fail("privtopub raised %r on a byte string" % (pth.value,), rp)
+            return
+        d, got, out = pth.value
+        ok = out == "PUB" and len(got) == 1 and got[0][0] == sp.G
+        rpm = rp
+        if ok:
+            g, m = pth.ctx.prove(SymZ.lift(got[0][1]).t == OS2IP(d.t), timeout_ms=60000)
+            if g == "sat":
+                rpm = {"kind": "c18_affine", "args": {"key_len": m.eval(z3.Length(d.t), model_completion=True).as_long()}}
+        else:
+            g = "sat"
+        require(rep, g, "privtopub(d) = multiply(G, OS2IP(d)) for key strings of every length 0..80 (no truncation, no marker stripping)", pth.decisions, rpm)
+    core.explore(run_priv, on_path=on_priv, ctx_kwargs=dict())
+
     # identity (0, 0) through the real Jacobian code (ring mode, inv contract)
     real_inv = sp.inv
 
